@@ -165,11 +165,68 @@ fn variation_seeds(out: &mut Vec<GenSeed>) {
         };
         if let Some((font, users)) = guarded(|| Some(c12::generated_font_and_users(&case))) {
             if font.len() <= 8000 {
-                out.push(GenSeed { name: format!("gen:var-{}", n), bytes: font, tuples: users.into_iter().take(6).collect(), shape: false });
+                let tuples: Vec<Vec<i32>> = users.into_iter().take(6).collect();
+                if n < 2 {
+                    // the same font with name tables that stress instance naming: family / subfamily /
+                    // PostScript-name-prefix (ids 1, 2, 6, 16, 17, 25) strings that are long (the generated
+                    // PostScript name is cut at 63 bytes) and not ASCII, with the multi-byte characters starting
+                    // at every offset modulo 3 so that a byte-indexed cut can fall inside one; also an
+                    // unpaired surrogate, an empty string and a Mac Roman record with high bytes.
+                    for (k, recs) in name_stress_tables().into_iter().enumerate() {
+                        if let Some((flavour, mut tabs)) = super::faults::sfnt_tables(&font) {
+                            tabs.retain(|(t, _)| t != b"name");
+                            tabs.push((*b"name", recs));
+                            out.push(GenSeed { name: format!("gen:var-{}-names{}", n, k), bytes: sfnt::build_sfnt(flavour, &tabs), tuples: tuples.clone(), shape: false });
+                        }
+                    }
+                }
+                out.push(GenSeed { name: format!("gen:var-{}", n), bytes: font, tuples, shape: false });
                 n += 1;
             }
         }
     }
+}
+
+/// name tables (format 0) whose strings stress the naming code of `variations::instance`
+fn name_stress_tables() -> Vec<Vec<u8>> {
+    use crate::fontgen::buf::Buf;
+    // records: (platform, encoding, language, name id, raw string bytes)
+    let table = |records: Vec<(u16, u16, u16, u16, Vec<u8>)>| -> Vec<u8> {
+        let mut sorted = records;
+        sorted.sort_by_key(|r| (r.0, r.1, r.2, r.3));
+        let (mut recs, mut strings) = (Buf::new(), Buf::new());
+        for (p, e, l, id, raw) in &sorted {
+            recs.u16(*p).u16(*e).u16(*l).u16(*id).u16(raw.len() as u16).u16(strings.len() as u16);
+            strings.bytes(raw);
+        }
+        let mut b = Buf::new();
+        b.u16(0).u16(sorted.len() as u16).u16((6 + 12 * sorted.len()) as u16);
+        b.bytes(&recs.0).bytes(&strings.0);
+        b.into_vec()
+    };
+    let utf16 = |s: &str| -> Vec<u8> { s.encode_utf16().flat_map(|u| u.to_be_bytes()).collect() };
+    let mut out = Vec::new();
+    for lead in 0..3usize {
+        // "a" * lead + 40 three-byte characters (+ an astral one): cut positions fall inside characters
+        let long: String = "a".repeat(lead) + &"\u{5B57}".repeat(40) + "\u{1F600}" + &"\u{00E9}".repeat(30);
+        let win = |id: u16, s: &str| (3u16, 1u16, 0x409u16, id, utf16(s));
+        out.push(table(vec![win(1, &long), win(2, "R\u{00E9}gul\u{00E8}re"), win(6, &long), win(16, &long), win(17, &long), win(25, &long), win(256, "\u{91CD}\u{91CF}"), win(257, &long), win(258, &long)]));
+    }
+    // unpaired surrogates, empty strings, odd byte length, Mac Roman records with high bytes
+    let mut odd = utf16(&"\u{00FC}".repeat(70));
+    odd.pop();
+    out.push(table(vec![
+        (3, 1, 0x409, 1, vec![0xD8, 0x00, 0x00, 0x41, 0xDC, 0x00]),
+        (3, 1, 0x409, 2, Vec::new()),
+        (3, 1, 0x409, 6, odd.clone()),
+        (3, 1, 0x409, 16, vec![0xD8, 0x3D]),
+        (3, 1, 0x409, 25, odd),
+        (1, 0, 0, 1, (0x80u8..=0xFF).collect()),
+        (1, 0, 0, 6, (0x80u8..=0xFF).collect()),
+        (1, 0, 0, 25, (0x80u8..=0xFF).collect()),
+        (3, 10, 0x409, 25, utf16(&"\u{1F600}".repeat(40))),
+    ]));
+    out
 }
 
 fn otto_with(base: &[u8], drop: &[&[u8; 4]], add: Vec<(sfnt::Tag, Vec<u8>)>, num_glyphs: u16) -> Option<Vec<u8>> {
